@@ -10,9 +10,15 @@
 //! trusted: sync_persist: the three methods of `impl<K: KVStoreSync> Persist for K` are verified as inherent methods of a Store stub whose write reports its result through the uninterpreted write_ok, whose read of the live namespace returns live_value(key), and whose remove carries the archive precondition; ChannelMonitor::encode / MonitorName::to_key uninterpreted; enum ChannelMonitorUpdateStatus extracted; R5: the signer type parameter is dropped
 //! assume: nobody else deletes from the archive namespace and the live value of the key does not change while archive_persisted_channel runs
 //! assume: stored_latest(key) is stable for the duration of the functions (no concurrent writer replaces the full monitor with an older one)
+//! trusted: assume_specification for core::cmp::max / core::cmp::min (std definitions): present in every unit so that a change that introduces them is verified instead of being rejected by the tool
 use vstd::prelude::*;
 use vstd::std_specs::cmp::*;
 verus! {
+use core::cmp;
+pub assume_specification<T: core::cmp::Ord>[core::cmp::max::<T>](a: T, b: T) -> (r: T)
+    ensures T::obeys_cmp_spec() ==> r == (if b.cmp_spec(&a) == core::cmp::Ordering::Less { a } else { b });
+pub assume_specification<T: core::cmp::Ord>[core::cmp::min::<T>](a: T, b: T) -> (r: T)
+    ensures T::obeys_cmp_spec() ==> r == (if b.cmp_spec(&a) == core::cmp::Ordering::Less { b } else { a });
 pub struct Error {}
 //@extract lightning/src/util/persist.rs :: const CHANNEL_MONITOR_PERSISTENCE_PRIMARY_NAMESPACE
 //@rw R1
